@@ -1,13 +1,14 @@
 SPECIFICATION Spec
 CONSTANTS
-  MaxW = 4
+  MaxW = 3
   MaxRoot = 1
   MaxMid = 2
   RootTargets = {"m"}
   Spellings = {"plain"}
   CfgPool = "basic"
   ListPool = "full"
-  AccNs = {"", "a", "m", "n"}
+  AccNs = {"", "m", "n"}
+  LawDev = {}
   AccMembers <- AccMembersFwd
-INVARIANTS InvNamespaceOnly InvConfigOnlyDefault InvShowHideComplement InvBuiltin Emit
+INVARIANTS InvNamespaceOnly InvConfigOnlyDefault InvShowHideComplement InvFilterExact InvBuiltin Emit
 CHECK_DEADLOCK FALSE
